@@ -166,6 +166,10 @@ fn check_in<R: Ring>(a: &Circ, b: &Circ, split: usize, obs: &mut Obs) -> Result<
     }
     // basic gates
     let basic = guarded("to_basic_gates", || qa.to_basic_gates())?;
+    // basic gates expand to themselves
+    if guarded("to_basic_gates of a basic circuit", || basic.to_basic_gates())? != basic {
+        return Err("to_basic_gates is not idempotent".into());
+    }
     let expect_len: usize = qa.gates.iter().map(|g| g.num_basic_gates()).sum();
     if basic.num_gates() != expect_len {
         return Err(format!(
